@@ -183,7 +183,7 @@ func VerifC11Outcome(h *verifh.H) {
 	runs++
 	check()
 	for k := 0; k < h.Param("timerSteps", 3); k++ {
-		if !h.FireTimer("rerun", 1500*time.Millisecond) {
+		if !h.FireTimer("rerun", 2500*time.Millisecond) {
 			break
 		}
 		runs++
